@@ -321,6 +321,7 @@ func c12r1(c *Ctx) {
 		})
 		c.check(bad == "", R, clr.Key+": leaves Token/Working alone", clr.Pos(), "not written", "Request.Clear (called by the deferred cleanup before RL.Put) overwrites "+bad+": Put then returns the wrong permit id / skips the release")
 	}
+	c12r1b(c)
 }
 
 // ------------------------------------------------------------------- R2
@@ -990,6 +991,7 @@ func c12r7(c *Ctx) {
 	if n == 0 {
 		c.undec(R, "map[string]*Item inserts", "no insert of an item into a request-keyed map found")
 	}
+	c12r7b(c)
 }
 
 // ------------------------------------------------------------------- R6
